@@ -342,7 +342,7 @@ impl Check for C01 {
         judge("C01", &u.level, unit, &model, &p, &argv, &Env::new(), ctx);
     }
     fn rule(&self) -> String {
-        "every definition of the conventional family (all ordered tuples of item kinds x tails, naming styles rotated by seed) x every vector of the token tree Sigma^{<=L} (Sigma = every declared spelling, inline forms, words, `--`, unknown names, command names); a state is a (definition, vector) node, a transition appends one token; plus, for long vectors, every sentence the grammar generates (all legal occurrence counts, spellings cycled, declaration and reverse order, words after / before the named items and behind `--`, every command and alias recursively) and every vector within ONE edit operation of a sentence (insert or replace by any token of Sigma at any position, delete, duplicate, swap neighbours); levels with multi-byte short switch names beside an ASCII valued item (clusters), PathBuf-valued levels whose alphabet carries a non-UTF-8 value, a typed sub-family converts every valued item to u32 over an alphabet with one valid (7) and one invalid (w) value; each node is judged by the reference scanner (accept+value / reject) against run_inner; non-trivial = node judged by the model (not in the unspecified region) and not the empty vector when rejected; nodes are distinct by construction (a tree has no converging paths)".into()
+        "every definition of the conventional family (all ordered tuples of item kinds x tails, naming styles rotated by seed) x every vector of the token tree Sigma^{<=L} (Sigma = every declared spelling, inline forms, words, `--`, unknown names, command names); a state is a (definition, vector) node, a transition appends one token; plus, for long vectors, every sentence the grammar generates (all legal occurrence counts, spellings cycled, declaration and reverse order, words after / before the named items and behind `--`, every command and alias recursively) and every vector within ONE edit operation of a sentence (insert or replace by any token of Sigma at any position, delete, duplicate, swap neighbours); levels with multi-byte short switch names beside an ASCII valued item (clusters), PathBuf-valued levels whose alphabet carries a non-UTF-8 value, a typed sub-family converts every valued item to u32 over an alphabet with one valid (7) and one invalid (w) value; each node is judged by the reference scanner (accept+value / reject) against run_inner; non-trivial = node judged by the model (not in the unspecified region) and not the empty vector when rejected; nodes are distinct by construction (a tree has no converging paths); plus valued items whose short name sits at each boundary of the UTF-8 lead-byte classes".into()
     }
     fn bounds(&self, tier: Tier) -> Value {
         match tier {
